@@ -182,7 +182,8 @@ func DeepShapes(side string, thorough bool) []MethodCase {
 				}
 				m = deepMethod(side, name, obj, form)
 			}
-			m.Feat = map[string]string{"family": "deep-shape-" + side, "shape": sh.Name, "pos": pos, "req": req, "feature": "deep:" + sh.Name + "/" + pos}
+			// "feature" goes into the C02/C03 signatures, "valid"+"pos" into the C04 signatures
+			m.Feat = map[string]string{"family": "deep-shape-" + side, "shape": sh.Name, "pos": pos, "req": req, "feature": "deep:" + sh.Name + "/" + pos, "valid": "shape:" + sh.Name}
 			out = append(out, MethodCase{M: m, Types: sh.Defs})
 		}
 	}
